@@ -215,12 +215,40 @@ func (e *Engine) solveAll(obls []*Obligation, workDir string, stats *SolveStats,
 				}
 				return
 			}
-			// stage 1: z3-new with a short budget
-			st, out, secs := runSolver(ctx, backends[0], f, min(e.timeoutS, 4))
+			// stage 1: z3-new with a short budget (1 s), then z3-new and cvc5 raced for 4 s
+			st, out, secs := runSolver(ctx, backends[0], f, 1)
 			stats.add("z3-new", secs, st == want)
 			o.Seconds += secs
+			stage1be := "z3-new"
+			if st != want && !allBackends {
+				os.WriteFile(fc, []byte(e.queryText(o, true)), 0o644)
+				type r1 struct {
+					be, st, out string
+					secs        float64
+				}
+				ch1 := make(chan r1, 2)
+				c1, cancel1 := context.WithCancel(ctx)
+				go func() {
+					s2, o2, t2 := runSolver(c1, backends[0], f, min(e.timeoutS, 4))
+					ch1 <- r1{"z3-new", s2, o2, t2}
+				}()
+				go func() {
+					s2, o2, t2 := runSolver(c1, backends[2], fc, min(e.timeoutS, 4))
+					ch1 <- r1{"cvc5", s2, o2, t2}
+				}()
+				for k := 0; k < 2; k++ {
+					x := <-ch1
+					stats.add(x.be, x.secs, x.st == want)
+					if x.st == want && st != want {
+						st, out, stage1be = x.st, x.out, x.be
+						o.Seconds += x.secs
+						cancel1()
+					}
+				}
+				cancel1()
+			}
 			if st == want && !allBackends {
-				o.Status, o.Backend, o.Raw = st, "z3-new", out
+				o.Status, o.Backend, o.Raw = st, stage1be, out
 			} else {
 				// stage 2: race all three with the full budget
 				os.WriteFile(fc, []byte(e.queryText(o, true)), 0o644)
